@@ -18,6 +18,8 @@ import (
 	"sync"
 	"sync/atomic"
 	"time"
+
+	"github.com/johannesboyne/gofakes3"
 )
 
 // C07: concurrent histories recorded for the linearizability check in
@@ -342,7 +344,11 @@ func (cr *concRun) finalSnapshot(keys []string) cEvent {
 }
 
 func newConcRun(sysName string, versioned bool, seed int64, big bool) (*concRun, cEvent, error) {
-	sys, err := NewSystem(sysName, SysOpts{})
+	return newConcRunOpts(sysName, versioned, seed, big, SysOpts{})
+}
+
+func newConcRunOpts(sysName string, versioned bool, seed int64, big bool, so SysOpts) (*concRun, cEvent, error) {
+	sys, err := NewSystem(sysName, so)
 	if err != nil {
 		return nil, cEvent{}, err
 	}
@@ -368,7 +374,7 @@ func newConcRun(sysName string, versioned bool, seed int64, big bool) (*concRun,
 	if sys.Single() {
 		single = concBucket
 	}
-	reset := cEvent{T: "reset", Seq: cr.next(), Cfg: Op{"versioned": sys.Versioned(), "paginate": sys.Paginates(), "single": single},
+	reset := cEvent{T: "reset", Seq: cr.next(), Cfg: Op{"versioned": sys.Versioned() && so.Wrap == nil, "paginate": sys.Paginates(), "single": single},
 		Buckets: []string{concBucket}, Versioning: ver, Sys: sysName}
 	return cr, reset, nil
 }
@@ -560,6 +566,102 @@ func gatedRun(sysName string, scenario string, seed int64) ([]cEvent, error) {
 	return cr.sorted(), nil
 }
 
+// gateBackend parks the first PutObject call after it has been armed: the
+// multipart completion is then suspended inside the backend write, holding
+// whatever locks the uploader holds at that point.
+type gateBackend struct {
+	gofakes3.Backend
+	mu     sync.Mutex
+	armed  bool
+	gate   chan struct{}
+	atGate chan struct{}
+}
+
+func (g *gateBackend) PutObject(bucket, key string, meta map[string]string, input io.Reader, size int64) (gofakes3.PutObjectResult, error) {
+	g.mu.Lock()
+	wait := g.armed
+	g.armed = false
+	g.mu.Unlock()
+	if wait {
+		close(g.atGate)
+		<-g.gate
+	}
+	return g.Backend.PutObject(bucket, key, meta, input, size)
+}
+
+// completeRun: a CompleteMultipartUpload suspended inside its backend write,
+// overlapped by another request on the same upload / key / bucket.
+func completeRun(sysName string, other string, seed int64) ([]cEvent, error) {
+	gb := &gateBackend{gate: make(chan struct{}), atGate: make(chan struct{})}
+	cr, reset, err := newConcRunOpts(sysName, false, seed, false, SysOpts{Wrap: func(b gofakes3.Backend) gofakes3.Backend { gb.Backend = b; return gb }})
+	if err != nil {
+		return nil, err
+	}
+	defer cr.sys.Close()
+	reset.Scenario = "complete:" + other
+	cr.record(reset)
+	r := rand.New(rand.NewSource(seed))
+	kb := keyBytes("k1")
+	b0 := cr.atom("w0_0", r)
+	cr.doOp("0", Op{"op": "PutObject", "b": concBucket, "k": kb, "body": []interface{}{"w0_0"}, "meta": []interface{}{}, "vid": ""}, b0, nil, nil)
+	init := Op{"op": "Initiate", "b": concBucket, "k": kb, "meta": []interface{}{}, "uid": ""}
+	cr.doOp("0", init, nil, nil, nil)
+	uid := init.S("uid")
+	p1 := cr.atom("p0_1", r)
+	cr.doOp("0", Op{"op": "UploadPart", "b": concBucket, "k": kb, "uid": uid, "n": float64(1), "body": []interface{}{"p0_1"}}, p1, nil, nil)
+	init2 := Op{"op": "Initiate", "b": concBucket, "k": keyBytes("k2"), "meta": []interface{}{}, "uid": ""}
+	cr.doOp("0", init2, nil, nil, nil)
+
+	gb.mu.Lock()
+	gb.armed = true
+	gb.mu.Unlock()
+	doneA := make(chan struct{})
+	go func() {
+		defer close(doneA)
+		list := []interface{}{map[string]interface{}{"n": float64(1), "body": []interface{}{"p0_1"}}}
+		cr.doOp("1", Op{"op": "Complete", "b": concBucket, "k": kb, "uid": uid, "list": list, "vid": ""}, nil, nil, nil)
+	}()
+	select {
+	case <-gb.atGate:
+	case <-doneA:
+	case <-time.After(10 * time.Second):
+		return nil, fmt.Errorf("scenario complete:%s: the completion neither reached the backend write nor returned", other)
+	}
+	doneB := make(chan struct{})
+	go func() {
+		defer close(doneB)
+		switch other {
+		case "uploadpart":
+			p2 := cr.atom("p2_2", r)
+			cr.doOp("2", Op{"op": "UploadPart", "b": concBucket, "k": kb, "uid": uid, "n": float64(2), "body": []interface{}{"p2_2"}}, p2, nil, nil)
+		case "uploadpart-other":
+			p2 := cr.atom("p2_2", r)
+			cr.doOp("2", Op{"op": "UploadPart", "b": concBucket, "k": keyBytes("k2"), "uid": init2.S("uid"), "n": float64(1), "body": []interface{}{"p2_2"}}, p2, nil, nil)
+		case "complete":
+			list := []interface{}{map[string]interface{}{"n": float64(1), "body": []interface{}{"p0_1"}}}
+			cr.doOp("2", Op{"op": "Complete", "b": concBucket, "k": kb, "uid": uid, "list": list, "vid": ""}, nil, nil, nil)
+		case "get":
+			cr.doOp("2", Op{"op": "GetObject", "b": concBucket, "k": kb}, nil, nil, nil)
+		case "initiate":
+			cr.doOp("2", Op{"op": "Initiate", "b": concBucket, "k": keyBytes("k2"), "meta": []interface{}{}, "uid": ""}, nil, nil, nil)
+		}
+	}()
+	select {
+	case <-doneB:
+	case <-time.After(300 * time.Millisecond):
+	}
+	close(gb.gate)
+	for _, ch := range []chan struct{}{doneA, doneB} {
+		select {
+		case <-ch:
+		case <-time.After(20 * time.Second):
+			return nil, fmt.Errorf("scenario complete:%s: a request did not return after the backend write was resumed (deadlock?)", other)
+		}
+	}
+	cr.record(cr.finalSnapshot([]string{"k1"}))
+	return cr.sorted(), nil
+}
+
 func cmdConc(args []string) {
 	fs := flag.NewFlagSet("conc", flag.ExitOnError)
 	systems := fs.String("systems", "mem", "systems")
@@ -616,6 +718,14 @@ func cmdConc(args []string) {
 					}
 					write(evs, sysName)
 				}
+			}
+			for _, other := range []string{"uploadpart", "uploadpart-other", "complete", "get", "initiate"} {
+				evs, err := completeRun(sysName, other, *seed)
+				if err != nil {
+					problems = append(problems, sysName+": "+err.Error())
+					continue
+				}
+				write(evs, sysName)
 			}
 		}
 	}
